@@ -125,6 +125,13 @@ CLAIMED = {
             'every pass of the literal scanner starts from constant scanner state and counters; numbers are printed through exact GMP conversion. The digit-counting '
             'arithmetic inside the scanner passes and the printed values themselves are value-level and not decided.',
             'static analysis: forbidden-argument rule with call-site resolution, validation-dominance rule, pass-initialisation (reaching-constant) rule on the scanner', ''),
+    'C17': ('other',
+            'Static, the quoting clauses only: (1) Logic::protectName quotes every uninterpreted name for which one of the three SMT-LIB conditions holds (characters outside the '
+            'simple-symbol alphabet, leading digit, reserved word) - truth table over its predicate calls - and the alphabet it accepts unquoted is a subset of the standard\'s; '
+            '(2) whole-program string provenance: text read from a raw-name source (symbol names, sort-symbol names, assertion names) reaches std::cout, a file stream or the '
+            'non-error response printer - directly, through returned strings or through caller-supplied streams - only through protectName; (3) functions echoing parser text '
+            'to std::cout distinguish quoted-symbol tokens. Number/abstract-value formats, let-abbreviation names, the `as` disambiguation and read-back equality itself are value-level and not decided.',
+            'static analysis: truth-table interpretation of the quoting predicate; interprocedural flow-insensitive string-provenance (taint) analysis with function summaries over the mini-AST', ''),
     'C15': ('other',
             'Static: (1) UB-obligation engine - every compiler-inserted sanitizer obligation (signed overflow, narrowing, sign change, float cast) in FastRational.h/.cc is '
             'either deleted by LLVM -O2 range analysis or listed in a table with a written justification and the guards it relies on (guards must still be present); the IR '
@@ -153,7 +160,6 @@ NOT_APPLICABLE = {
     'C12': 'propositional consequence of a runtime clause database (RUP) cannot be decided from source shape',
     'C13': 'semantic equisatisfiability of rewrites over all terms needs evaluation or solving, a different technique family',
     'C14': 'semantic equivalence of constructor results over all arguments needs evaluation or solving',
-    'C17': 'round-trip equality of printed text; a who-must-quote lint has an accepted-idiom set too large to be exact',
     'C30': 'termination needs ranking arguments for CDCL with restarts, Bland pivoting and lookahead; polling a stop flag is not termination',
 }
 
